@@ -376,12 +376,30 @@ pub fn apply_ref(op: Op, a: &[Val], u: f64) -> Val {
             let p = mul_val(x, &a[1], kappa(Mul), u);
             add_val(&p, &a[2], false, kappa(Add), u)
         }
+        BesselJ0 | BesselJ1 | BesselJ2 => {
+            // absolute scale (all derivatives of J_n are bounded by 1; the implementation
+            // differentiates rational / asymptotic approximants): + kappa_k u sum |N^k|
+            let mut r = smooth(op.func().unwrap(), x, kap, u);
+            let n = x.v.abs().nil();
+            let ones: Vec<DD> = (0..=x.v.shape.maxdeg).map(|_| DD::ONE).collect();
+            let s = n.apply(&ones);
+            for (i, m) in x.v.shape.monos.iter().enumerate() {
+                let k = (m.count_ones() as usize).min(BESSEL_ABS_KAPPA.len() - 1);
+                let scale = if i == 0 { DD::ONE } else { s.c[i] };
+                r.e.c[i] = r.e.c[i].add_dd(scale.mul_f(BESSEL_ABS_KAPPA[k] * u));
+            }
+            r
+        }
         _ => {
             let f = op.func().unwrap_or_else(|| panic!("MACHINERY: no reference semantics for {op:?}"));
             smooth(f, x, kap, u)
         }
     }
 }
+
+/// absolute-scale constants per derivative order for the cylindrical Bessel functions
+/// (DESIGN 2.5; measured on the pinned tree, the maxima sit at the branch point |x| = 5)
+pub const BESSEL_ABS_KAPPA: [f64; 7] = [16.0, 32.0, 256.0, 8192.0, 65536.0, 65536.0, 65536.0];
 
 /// Propagated error bound of the *defining expression* of a composite interface function,
 /// evaluated at exact operands (E^def of DESIGN 2.5).  None for primitive operations.
@@ -428,6 +446,17 @@ pub fn defining_bound(op: Op, a: &[Val], u: f64) -> Option<Jet<DD>> {
             let num = add_val(&d3, &x2s, true, kappa(Sub), u);
             let den = mul_val(&x2, x, kappa(Mul), u);
             apply_ref(Div, &[num, den], u).e
+        }
+        BesselJ2 => {
+            // 2 J1 / x - J0 away from the small-argument series
+            if x.v.re().abs_dd().hi < 1e-5 {
+                return None;
+            }
+            let j1 = apply_ref(BesselJ1, a, u);
+            let j0 = apply_ref(BesselJ0, a, u);
+            let t = apply_ref(MulF(2.0), &[j1], u);
+            let q = apply_ref(Div, &[t, x.clone()], u);
+            add_val(&q, &j0, true, kappa(Sub), u).e
         }
         Atan2 => {
             // atan of the better-conditioned quotient
